@@ -102,8 +102,19 @@ func (w *world) newSession(t fataler, tk tok) string {
 }
 
 func (w *world) resetSession(t fataler, cookie string) {
-	res := execute(reqSpec{H: handlerSpec{Kind: "meta-reset"}, Method: http.MethodGet, Host: "portmaster.test", Cookie: cookieHdr(cookie)})
-	if !res.returned || len(res.panics) > 0 {
+	idx := -1
+	for i, s := range w.sessNames {
+		if s == cookie {
+			idx = i
+		}
+	}
+	w.logOp(jop{Op: "reset", Session: idx})
+	q := reqSpec{H: handlerSpec{Kind: "meta-reset"}, Method: http.MethodGet, Host: "portmaster.test", Cookie: cookieHdr(cookie)}
+	res := execute(q)
+	if !res.returned {
+		w.hangVerdict("the request "+q.String(), requestMarker)
+	}
+	if len(res.panics) > 0 {
 		t.Fatalf("/auth/reset did not answer properly: %+v", res)
 	}
 	delete(w.sessions, cookie)
@@ -312,6 +323,7 @@ func inPerms(p int, l []int) bool { return inInts(p, l) }
 func runTable(t *testing.T, w *world, specs []handlerSpec, credFilter func(cred) bool, fullOrigin bool, c *counters) {
 	for _, dev := range []bool{false, true} {
 		for _, h := range specs {
+			w.compactLog()
 			w.setDev(t, false)
 			fx := w.newFixture(t)
 			w.setDev(t, dev)
@@ -348,6 +360,9 @@ func runTable(t *testing.T, w *world, specs []handlerSpec, credFilter func(cred)
 }
 
 func TestExhaustiveRawHandlers(t *testing.T) {
+	if replayed(t) {
+		return
+	}
 	if v := api.VerifSessionTTL().Seconds(); v != sessTTL {
 		t.Fatalf("harness: session TTL is %v s, the model assumes %v s", v, sessTTL)
 	}
@@ -368,6 +383,9 @@ func TestExhaustiveRawHandlers(t *testing.T) {
 }
 
 func TestExhaustiveWrappedHandlers(t *testing.T) {
+	if replayed(t) {
+		return
+	}
 	w := newWorld()
 	w.setKeys(t, fixtureKeyEntries(), true)
 	c := newCounters()
@@ -377,11 +395,17 @@ func TestExhaustiveWrappedHandlers(t *testing.T) {
 }
 
 func TestExhaustiveEndpointsAction(t *testing.T) {
+	if replayed(t) {
+		return
+	}
 	exhaustiveEndpoints(t, []string{"action"})
 	stats.Exhaustive("RegisterEndpoint ActionFunc endpoints: all 36 declared read/write pairs in {Dynamic,NotSupported,Anyone,User,Admin,Self}^2 x the raw handler table")
 }
 
 func TestExhaustiveEndpointsOtherTypes(t *testing.T) {
+	if replayed(t) {
+		return
+	}
 	exhaustiveEndpoints(t, []string{"data", "struct", "record", "handler"})
 	stats.Exhaustive("RegisterEndpoint Data/Struct/Record/HandlerFunc endpoints: every declared permission per class (other class Self)")
 }
@@ -425,6 +449,9 @@ func exhaustiveEndpoints(t *testing.T, types []string) {
 // admin. Every endpoint type x declared permission, read (Get) and write (Put);
 // keys that would leave /api/v1/ must not reach any handler.
 func TestExhaustiveBridgeThroughDatabase(t *testing.T) {
+	if replayed(t) {
+		return
+	}
 	w := newWorld()
 	w.setDev(t, false)
 	db := database.NewInterface(&database.Options{Local: true, Internal: true})
@@ -481,16 +508,23 @@ func TestExhaustiveBridgeThroughDatabase(t *testing.T) {
 // ---------------------------------------------------------------- histories that need the clock
 
 // TestHistoryKeyExpiresWhileConfigured: a key that is valid when it is imported
-// and expires afterwards must stop granting anything. The only wall-clock
-// dependent test: it conditions on clock readings taken around the requests.
+// and expires afterwards (while it is loaded) must stop granting anything, and
+// presenting it must leave the server able to answer the following requests and
+// to import keys. Wall-clock dependent: it conditions on clock readings taken
+// around the requests (see keyState).
 func TestHistoryKeyExpiresWhileConfigured(t *testing.T) {
+	if replayed(t) {
+		return
+	}
 	w := newWorld()
 	w.setDev(t, false)
-	exp := time.Now().Add(3 * time.Second).Truncate(time.Second)
 	const key = "key-expiring-soon-91c2"
-	w.setKeys(t, []string{key + "?read=admin&write=admin&expires=" + exp.UTC().Format(time.RFC3339)}, false)
+	const permanent = "key-permanent-5d10"
+	if !w.setKeysExpiring(t, []string{permanent + "?read=user&write=user"}, []expiringEntry{{Entry: key + "?read=admin&write=admin", AfterMs: 1500}}) {
+		t.Skip("the key import took longer than the key lives; nothing can be said")
+	}
 	if _, ok := w.keys[key]; !ok {
-		t.Fatalf("harness: the model does not list the soon-expiring key (expires %s, now %s)", exp, time.Now())
+		t.Fatalf("harness: the model does not list the soon-expiring key: %v", w.keys)
 	}
 	hs := []handlerSpec{{"raw", pAdmin, pAdmin}, {"raw", pUser, pUser}, {"ep:action", pAdmin, pAdmin}, {"raw", pDynamic, pDynamic}}
 	creds := []string{"Bearer " + key, basicKey(key)}
@@ -498,31 +532,32 @@ func TestHistoryKeyExpiresWhileConfigured(t *testing.T) {
 	for _, h := range hs {
 		for _, m := range []string{http.MethodGet, http.MethodPost} {
 			for _, a := range creds {
-				q := reqSpec{H: h, Method: m, Host: "portmaster.test", Authz: a}
-				before := execute(q)
-				if time.Now().Before(exp) {
-					// certainly evaluated before the expiry: the key grants admin
-					if before.runs != 1 || before.tokens[0] == nil || *before.tokens[0] != (tok{pAdmin, pAdmin}) {
-						t.Fatalf("unexpired key did not grant admin: %s -> status %d runs %d tokens %s", q, before.status, before.runs, fmtToks(before.tokens))
-					}
+				// before the expiry the key grants admin (the model decides by the clock, with a margin)
+				_, o := w.step(t, reqSpec{H: h, Method: m, Host: "portmaster.test", Authz: a})
+				if o.g.src == "key" {
 					stats.Class("expiry:checked_before_expiry")
 				}
 				n++
 			}
 		}
 	}
-	time.Sleep(time.Until(exp.Add(1200 * time.Millisecond)))
-	delete(w.keys, key) // expired now
+	w.waitExpiry()
 	for _, h := range hs {
 		for _, m := range []string{http.MethodGet, http.MethodPost} {
-			for _, a := range creds {
+			for _, a := range append(creds, "Bearer "+permanent, "Bearer not-configured-key", "") {
+				// the expired key grants nothing; the other credentials are unaffected; every request returns
 				w.step(t, reqSpec{H: h, Method: m, Host: "portmaster.test", Authz: a})
 				stats.Class("expiry:checked_after_expiry")
 				n++
 			}
 		}
 	}
-	stats.CaseN(n, n, "history_key_expires_while_configured")
+	// keys can still be changed afterwards
+	w.setKeys(t, []string{permanent + "?read=admin&write=admin"}, false)
+	w.step(t, reqSpec{H: handlerSpec{"raw", pAdmin, pAdmin}, Method: http.MethodGet, Host: "portmaster.test", Authz: "Bearer " + permanent})
+	w.step(t, reqSpec{H: handlerSpec{"raw", pAdmin, pAdmin}, Method: http.MethodGet, Host: "portmaster.test", Authz: "Bearer " + key})
+	w.setKeys(t, []string{}, false)
+	stats.CaseN(n+2, n+2, "history_key_expires_while_configured")
 }
 
 // ---------------------------------------------------------------- regressions (fixed findings)
@@ -530,6 +565,9 @@ func TestHistoryKeyExpiresWhileConfigured(t *testing.T) {
 // TestRegShortUnknownKey: an unknown API key of fewer than four bytes (Bearer or
 // Basic, including an undecodable Basic header) paniced the request worker.
 func TestRegShortUnknownKey(t *testing.T) {
+	if replayed(t) {
+		return
+	}
 	w := newWorld()
 	w.setDev(t, false)
 	w.setKeys(t, fixtureKeyEntries(), true)
@@ -549,6 +587,9 @@ func TestRegShortUnknownKey(t *testing.T) {
 // that every API request hung in devMode(). The history is replayed with
 // several writers; afterwards a request must still be answered.
 func TestRegConcurrentConfigWritesKeepServing(t *testing.T) {
+	if replayed(t) {
+		return
+	}
 	w := newWorld()
 	w.setDev(t, false)
 	done := make(chan struct{})
